@@ -6,6 +6,7 @@ use crate::run::*;
 pub mod c02;
 pub mod c03;
 pub mod c04;
+pub mod c05;
 pub mod c08;
 pub mod c12;
 pub mod c20;
@@ -72,7 +73,7 @@ pub struct PropDef {
 }
 
 pub fn all() -> Vec<PropDef> {
-    vec![c02::def(), c03::def(), c04::def(), c08::def(), c12::def(), c20::def()]
+    vec![c02::def(), c03::def(), c04::def(), c05::def(), c08::def(), c12::def(), c20::def()]
 }
 
 pub fn get(id: &str) -> Option<PropDef> {
